@@ -9,7 +9,8 @@ EXTENDS AggSig, TraceUtil
 MatchSig(e) ==
   LET expected == BundleValid(e) /\ Verifies(e.signed, e.wellformed, RequiredPairs(e))
   IN /\ e.res.ps = expected /\ e.res.ps_cold = expected /\ e.res.ps_again = expected /\ e.res.ps_warm = expected
-     /\ e.res.vcs = expected /\ e.res.rbg2 = expected
+     \* the bundle path additionally checks the declared puzzle hashes
+     /\ e.res.vcs = (expected /\ HashesMatch(e)) /\ e.res.rbg2 = expected
      /\ FinalMessagesOk(e)
 
 VARIABLE l
